@@ -380,7 +380,24 @@ def check_axes(ctx: Ctx):
             return t[1][2]
         return None
     expected = {("soundevent.audio.io", "load_recording"): ("time", "channel"), ("soundevent.audio.io", "load_clip"): ("time", "channel"),
-                ("soundevent.audio.spectrograms", "compute_spectrogram"): ("frequency", "time", "channel")}
+                ("soundevent.audio.spectrograms", "compute_spectrogram"): ("frequency", "time", "channel"),
+                ("soundevent.audio.operations", "resample"): None}  # (resample keeps the dimensions of its input)
+    # the transforms that work along the time axis are told which axis that is
+    for modname, fname, ext in (("soundevent.audio.spectrograms", "compute_spectrogram", "scipy.signal.stft"), ("soundevent.audio.operations", "resample", "scipy.signal.resample")):
+        s = ctx.summ.of_func(modname, fname)
+        calls = [e for e in s.calls if e.term[1] == ("ext", ext)]
+        site = f"{s.module.relpath}:{s.node.lineno} {fname}"
+        for e in calls:
+            ax = callkw(e.term).get("axis")
+            arrp = ("param", s.params[0])
+            good = ax is not None and ax[0] == "call" and ax[1] == ("attr", arrp, "get_axis_num") and len(ax[2]) == 1 \
+                and (axis_name(ax[2][0]) == "time" or ax[2][0] == ("param", "dim"))
+            if good:
+                ctx.ok("R15.7", site, f"{ext.split('.')[-1]}(axis=<the time axis of the input>)")
+            else:
+                ctx.bad("R15.7", s.module.relpath, fname, f"{ext.split('.')[-1]}(axis={show(ax)[:40] if ax else 'default'})",
+                        f"{fname} runs {ext} along axis {show(ax)[:40] if ax else '-1 (the default)'} instead of the time axis of its input: "
+                        f"the samples of different channels are transformed as if they were consecutive in time", e.lineno)
     for (modname, fname), want in expected.items():
         s = ctx.summ.of_func(modname, fname)
         file = s.module.relpath
@@ -406,7 +423,14 @@ def check_axes(ctx: Ctx):
             names = tuple(axis_name(x) for x in dims[1])
         elif dims is None and keys is not None:
             names = tuple(k for k, _ in keys)  # xarray takes the order of the coordinate mapping
-        if names is None or None in names:
+        if "data" not in kw and not das[0][2]:
+            ctx.bad("R15.7", file, fname, "xr.DataArray(...) without data", f"{fname} builds its array without the data it computed", s.node.lineno)
+        if want is None:
+            if dims == ("attr", ("param", s.params[0]), "dims"):
+                ctx.ok("R15.7", site, "the dimensions of the input are kept")
+            else:
+                ctx.undec("R15.7", site, f"cannot read the axis names of the returned array: dims={show(dims)[:60] if dims else '-'}")
+        elif names is None or None in names:
             ctx.undec("R15.7", site, f"cannot read the axis names of the returned array: dims={show(dims)[:60] if dims else '-'}")
         elif names != want:
             ctx.bad("R15.7", file, fname, f"dims={names}",
